@@ -18,6 +18,14 @@ brute-force kNN (the batch menus are chosen tie-free; a boundary tie raises
 ``KnnTie``), exact distances, permutation threshold through the documented draw
 protocol (``sampling_times`` x ``numpy.random.permutation(v_ref)``, v2 = 1 - v1)
 and the decision d > theta through the Decider.
+
+Round-3 extension: data with exact distance ties (integer lattices, rounded
+values) and data at a large level (where a correct float implementation cannot
+resolve squared distances below ``tol``) have no unique kNN relation.
+``knn_relations`` enumerates every valid relation (lazily, canonical one first);
+``NNDVIModel.step`` then accepts the implementation's decision when *some* valid
+relation yields it (a hint -- the relation the public partitioner produced -- is
+tried first), and is strict when every valid relation yields the same decision.
 """
 import math
 from fractions import Fraction
@@ -56,9 +64,11 @@ def sqdist(p, q):
 
 
 # ----------------------------------------------------------------- kNN relation
-def knn_row_defect(D, i, row, k):
+def knn_row_defect(D, i, row, k, tol=0):
     """None if ``row`` (0/1 over D) is a valid k-nearest-neighbour set of D[i]
-    (the point itself included), else a string saying what is wrong."""
+    (the point itself included), else a string saying what is wrong.  ``tol`` is the
+    absolute error of a squared distance that a correct float implementation may
+    commit at the level of the data (0 = exact)."""
     sel = [j for j, x in enumerate(row) if x == 1]
     if any(x not in (0, 1) for x in row):
         return "row %d has entries other than 0/1: %r" % (i, list(row))
@@ -71,7 +81,7 @@ def knn_row_defect(D, i, row, k):
         return None
     far = max(sqdist(D[i], D[j]) for j in sel)
     near = min(sqdist(D[i], D[j]) for j in uns)
-    if far > near:
+    if far > near + tol:
         return (
             "row %d selects a point at squared distance %s although an unselected point is at %s"
             % (i, far, near)
@@ -90,6 +100,60 @@ def knn_rows(D, k):
         chosen = set(order[:k])
         rows.append([1 if j in chosen else 0 for j in range(n)])
     return rows
+
+
+class TooManyRelations(Exception):
+    pass
+
+
+def knn_row_options(D, i, k, tol=0):
+    """All valid k-nearest-neighbour sets of D[i] (self included), as sorted index
+    tuples; the first one breaks ties towards the lower index."""
+    import itertools
+
+    n = len(D)
+    dist = [sqdist(D[i], D[j]) for j in range(n)]
+    order = sorted(range(n), key=lambda j: (dist[j], j))
+    if k >= n:
+        return [tuple(range(n))]
+    dk = dist[order[k - 1]]
+    must = [j for j in range(n) if dist[j] < dk - tol]
+    cand = [j for j in range(n) if j not in must and dist[j] <= dk + tol]
+    need = k - len(must)
+    out = []
+    for extra in itertools.combinations(cand, need):
+        sel = sorted(must + list(extra))
+        if i not in sel:
+            continue
+        row = [1 if j in sel else 0 for j in range(n)]
+        if knn_row_defect(D, i, row, k, tol) is None:
+            out.append(tuple(sel))
+    return out
+
+
+def knn_relations(D, k, tol=0):
+    """Generator over every valid kNN relation of D (list of 0/1 rows).  The first one
+    is the canonical relation (ties towards the lower index)."""
+    import itertools
+
+    n = len(D)
+    opts = [knn_row_options(D, i, k, tol) for i in range(n)]
+    for choice in itertools.product(*opts):
+        yield [[1 if j in sel else 0 for j in range(n)] for sel in choice]
+
+
+def count_relations(D, k, tol=0):
+    c = 1
+    for i in range(len(D)):
+        c *= len(knn_row_options(D, i, k, tol))
+    return c
+
+
+def is_relation(D, adj, k, tol=0):
+    n = len(D)
+    if adj is None or len(adj) != n or any(len(r) != n for r in adj):
+        return False
+    return all(knn_row_defect(D, i, adj[i], k, tol) is None for i in range(n))
 
 
 def has_boundary_tie(D, k):
@@ -127,6 +191,9 @@ def distance(adj, v1, v2):
 
 
 # ----------------------------------------------------------------- NN-DVI
+RELATION_BUDGET = 1500  # valid kNN relations evaluated per step before giving up (tie data only)
+
+
 class NNDVIModel:
     """Executable specification of NNDVI after ``set_reference``."""
 
@@ -144,14 +211,19 @@ class NNDVIModel:
     def set_reference(self, rows):
         self.ref = [tuple(r) for r in rows]
 
-    def threshold(self, adj, v_ref):
+    def draw(self, v_ref):
+        """The documented draw protocol: sampling_times x numpy.random.permutation(v_ref)."""
+        base = np.array([float(x) for x in v_ref])
+        return [[int(x) for x in np.random.permutation(base)] for _ in range(self.sampling_times)]
+
+    def threshold(self, adj, v_ref, perms=None):
         """(theta, degenerate, c): theta = (1-alpha) quantile of N(mean, population std)
         of the distances under sampling_times random re-assignments; ``degenerate`` when
         all of them are equal (c), where the fitted normal has no spread."""
-        base = np.array([float(x) for x in v_ref])
+        if perms is None:
+            perms = self.draw(v_ref)
         ds = []
-        for _ in range(self.sampling_times):
-            v1 = [int(x) for x in np.random.permutation(base)]
+        for v1 in perms:
             v2 = [1 - x for x in v1]
             ds.append(distance(adj, v1, v2))
         n = len(ds)
@@ -162,10 +234,31 @@ class NNDVIModel:
         std = math.sqrt(float(var))
         return float(norm.ppf(1 - self.alpha, float(mu), std)), False, float(mu)
 
-    def step(self, rows, D, follow=None):
+    @staticmethod
+    def _plain(d, theta, degenerate, c, tie):
+        """Decision without a Decider: True / False, or None when either answer is
+        acceptable (degenerate fit with d not below the common value, or d within the
+        relative margin ``tie`` of the threshold)."""
+        d = float(d)
+        if degenerate:
+            if d < c and abs(d - c) > tie * max(abs(d), abs(c), 1e-300):
+                return False
+            return None
+        if math.isnan(theta):
+            return False
+        if math.isinf(theta):
+            return d > theta
+        if abs(d - theta) <= tie * max(abs(d), abs(theta), 1e-300):
+            return None
+        return d > theta
+
+    def step(self, rows, D, follow=None, hint=None, tol=0):
         """One ``update(rows)``.  ``D`` is the Decider; ``follow`` is the implementation's
-        answer, used *only* when the threshold is degenerate and d is not below the common
-        permutation distance (then NaN-threshold 'no drift' and 'd > c' are both accepted)."""
+        answer, used *only* (a) when the threshold is degenerate and d is not below the
+        common permutation distance (then NaN-threshold 'no drift' and 'd > c' are both
+        accepted) and (b) when the kNN relation of the pooled points is not unique: the
+        step is then accepted iff some valid relation yields ``follow`` (``hint``, a
+        candidate relation, is tried first).  ``tol``: see knn_row_defect."""
         if self.state == "drift":
             self.state = None
             self.since = 0
@@ -176,18 +269,61 @@ class NNDVIModel:
         U = union(self.ref, batch)
         v_ref = membership(U, self.ref)
         v_test = membership(U, batch)
-        adj = knn_rows(U, self.k)
-        d = distance(adj, v_ref, v_test)
-        theta, degenerate, c = self.threshold(adj, v_ref)
+        n_rel = count_relations(U, self.k, tol)
         ambiguous = False
-        if degenerate:
-            if D.lt(float(d), c):
-                drift = False
+        relation = "unique"
+        if n_rel == 1:
+            adj = next(knn_relations(U, self.k, tol))
+            d = distance(adj, v_ref, v_test)
+            theta, degenerate, c = self.threshold(adj, v_ref)
+            if degenerate:
+                if D.lt(float(d), c):
+                    drift = False
+                else:
+                    ambiguous = True
+                    drift = bool(follow) if follow is not None else False
             else:
-                ambiguous = True
-                drift = bool(follow) if follow is not None else False
+                drift = D.gt(float(d), theta)
         else:
-            drift = D.gt(float(d), theta)
+            perms = self.draw(v_ref)
+
+            def evaluate(adj):
+                d = distance(adj, v_ref, v_test)
+                theta, degenerate, c = self.threshold(adj, v_ref, perms)
+                return d, theta, degenerate, c, self._plain(d, theta, degenerate, c, D.tie)
+
+            def candidates():
+                if hint is not None and is_relation(U, hint, self.k, tol):
+                    yield "hint", [[int(x) for x in r] for r in hint]
+                for adj in knn_relations(U, self.k, tol):
+                    yield "enumerated", adj
+
+            first = None
+            chosen = None
+            complete = True
+            for j, (how, adj) in enumerate(candidates()):
+                if j >= RELATION_BUDGET:
+                    complete = False
+                    break
+                res = evaluate(adj)
+                if first is None:
+                    first = (how, res)
+                if follow is None or res[4] is None or res[4] == bool(follow):
+                    chosen = (how, res)
+                    break
+            if chosen is None and not complete:
+                # more valid relations than can be evaluated: the decision is not judged
+                relation = "unjudged"
+                d, theta, degenerate, c, pred = first[1]
+                drift = bool(follow)
+            else:
+                how, (d, theta, degenerate, c, pred) = chosen if chosen is not None else first
+                relation = how
+                if pred is None:
+                    ambiguous = degenerate
+                    drift = bool(follow) if follow is not None else False
+                else:
+                    drift = pred
         if drift:
             self.state = "drift"
             self.ref = batch
@@ -201,6 +337,9 @@ class NNDVIModel:
             "unequal": len(batch) != n_ref,
             "shared": sum(1 for a, b in zip(v_ref, v_test) if a and b),
             "n_union": len(U),
+            "relations": n_rel,
+            "relation": relation,
+            "same_set": v_ref == v_test,
         }
         return {
             "state": self.state,
